@@ -73,13 +73,37 @@ REQUIRED_TABLE_KINDS = {
     "CFF2": ("count", "offset", "index"), "glyf": ("count", "index"), "loca": ("offset",), "cmap": ("count", "offset"),
     "name": ("count", "offset"), "post": ("count",), "hhea": ("count",), "maxp": ("count",), "GSUB": ("count", "offset", "index"),
     "GPOS": ("count", "offset", "index"), "GDEF": ("offset",), "kern": ("count",), "sbix": ("count", "offset"),
-    "EBLC": ("count", "offset"), "SVG ": ("count", "offset"),
+    "EBLC": ("count", "offset", "length", "index"), "SVG ": ("count", "offset", "length"),
+    # table kinds / sub-formats carried by the synthesized champion inputs (c01_faults/synth.rs)
+    "EBDT": ("count", "length", "index"), "CBLC": ("count", "offset", "length", "index"), "CBDT": ("count", "length"),
+    "morx": ("count", "offset", "length", "index"), "cvar": ("count", "offset"), "VVAR": ("count", "offset", "index"),
 }
+# kinds of field (table kind : normalised name, regular expressions) that must have been overwritten in every run: one per
+# sub-format the synthesized champions exist for - every EBLC / CBLC index format, every EBDT / CBDT image format, morx sub-table
+# types and lookup formats, cmap formats, kern formats, post versions via their own fields, FDSelect formats
+REQUIRED_FIELD_KINDS = [
+    r"^EBLC:.*\.f1\.offset", r"^EBLC:.*\.f2\.imageSize", r"^EBLC:.*\.f3\.offset", r"^EBLC:.*\.f4\.numGlyphs", r"^EBLC:.*\.f4\.pair\.offset",
+    r"^EBLC:.*\.f5\.imageSize", r"^EBLC:.*\.f5\.numGlyphs", r"^EBLC:.*\.f2\.bigMetrics\.height", r"^EBLC:.*\.f5\.bigMetrics\.width",
+    r"^CBLC:.*\.f1\.offset", r"^CBLC:.*\.f2\.imageSize", r"^CBLC:.*\.f3\.offset", r"^CBLC:.*\.f4\.pair\.offset", r"^CBLC:.*\.f5\.imageSize",
+    r"^EBDT:.*img1\.g\.height", r"^EBDT:.*img2\.g\.width", r"^EBDT:.*img6\.g\.height", r"^EBDT:.*img7\.g\.width", r"^EBDT:.*img8\.g\.numComponents",
+    r"^EBDT:.*img9\.g\.numComponents", r"^EBDT:.*img8\.g\.comp\.glyphID", r"^CBDT:.*img17\.g\.dataLen", r"^CBDT:.*img18\.g\.dataLen",
+    r"^CBDT:.*img19\.g\.dataLen",
+    r"^morx:chain\.chainLength", r"^morx:.*\.t1\.nClasses", r"^morx:.*\.t2\.ligActionOffset", r"^morx:.*\.t1\.substitutionTableOffset",
+    r"^morx:.*\.t4\.lk0\.", r"^morx:.*\.t4\.lk2\.nUnits", r"^morx:.*\.t4\.lk4\.seg\.offset", r"^morx:.*\.t4\.lk6\.nUnits", r"^morx:.*\.t4\.lk8\.glyphCount",
+    r"^morx:.*\.t4\.lk10\.unitSize", r"^morx:.*\.t0\.nClasses", r"^morx:.*\.t5\.insertionActionOffset",
+    r"^cmap:f0\.length", r"^cmap:f2\.sub\.entryCount", r"^cmap:f4\.segCountX2", r"^cmap:f6\.entryCount", r"^cmap:f10\.numChars",
+    r"^cmap:f12\.numGroups", r"^cmap:f14\.numVarSelectorRecords",
+    r"^kern:f0\.nPairs", r"^kern:f2\.rowWidth", r"^post:numGlyphs", r"^sbix:numStrikes", r"^sbix:strike\.glyphDataOffset", r"^SVG :doc\.svgDocLength",
+    r"^cvar:", r"^VVAR:", r"^CFF2:fdSelect\.nRanges", r"^CFF2:fdSelect\.fd", r"^CFF :fdSelect",
+]
+# table kinds ("dir" = container level) in which both derived classes must have been planned with an effect on the bytes and applied
+REQUIRED_DER_KINDS = ["dir", "EBLC", "EBDT", "CBLC", "CBDT", "cmap", "kern", "name", "morx", "SVG ", "hhea", "maxp", "fvar", "MVAR"]
+DER = ("der-1", "der-half")
 # kinds of field on which the classes "self" / "parent" must have been instantiated
 # table kinds ("dir" = container level) in which every relational class must have been planned with an effect on the bytes and
 # applied in the run (arrays the repository fonts carry: segment maps, cmap segments / groups, offsets, records sorted by key)
 REQUIRED_REL_KINDS = ["dir", "avar", "fvar", "gvar", "HVAR", "MVAR", "STAT", "cmap", "loca", "name", "hmtx", "glyf", "CFF ", "CFF2",
-                      "GSUB", "GPOS", "kern", "post"]
+                      "GSUB", "GPOS", "kern", "post", "EBLC", "CBLC", "morx", "sbix", "SVG ", "VVAR"]
 REL_PREV = ("eqprev", "prev+1", "prev-1", "uwrap-prev", "swrap-prev")
 REL_NEXT = ("eqnext", "next-1", "next+1", "uwrap-next", "swrap-next")
 REQUIRED_REF_KINDS = [r"^glyf:index:glyph\.comp\.glyphIndex$", r"^CFF :index:lsubr\.callsubr\.arg$", r"^CFF :index:gsubr\.callgsubr\.arg$",
@@ -215,6 +239,8 @@ def _count(files, out):
     ref_kinds = collections.Counter()                            # reference-class overwrites per kind of field
     rel_kinds = collections.defaultdict(collections.Counter)     # table kind -> relational class -> applied overwrites that changed the bytes
     rel_jobs = {}                                                # case -> (table kind, class) of a single relational overwrite
+    der_kinds = collections.defaultdict(collections.Counter)     # table kind -> derived class -> applied overwrites that changed the bytes
+    field_kinds = collections.Counter()                          # "table kind:normalised field name" of overwritten structural table-level fields
     died = collections.defaultdict(collections.Counter)
     ok_to_err = collections.Counter()
     more_err = collections.Counter()
@@ -253,6 +279,10 @@ def _count(files, out):
                             vcs[ft[2]] += 1
                         if ft[0] == "Overwrite" and ft[3] == "table" and ft[5] != "hook":
                             table_role[ft[4]][ft[1]] += 1
+                            if ft[9] != "":
+                                field_kinds["%s:%s" % (ft[4], _norm_field(ft[5]))] += 1
+                        if ft[2] in DER and ft[9] != "" and ft[9] != ft[8]:
+                            der_kinds["dir" if ft[3] == "dir" else ft[4]][ft[2]] += 1
                         if ft[2] in REL_PREV + REL_NEXT and ft[9] != "" and ft[9] != ft[8]:
                             rel_kinds["dir" if ft[3] == "dir" else ft[4]][ft[2]] += 1
                             if a["nf"] == 1:
@@ -275,6 +305,7 @@ def _count(files, out):
         "fault_sequences_run": len(jobs),
         "fault_sequences_noticed": sum(1 for v in jobs.values() if v),
         "inputs": len(inputs),
+        "input_names": sorted(inputs),
         "faults_per_role": dict(roles), "faults_per_value_class": dict(vcs), "faults_per_kind": dict(kinds),
         "faults_per_level": dict(levels), "sequences_per_length": {str(k): v for k, v in nf.items()},
         "outcomes_per_group": {g: dict(c) for g, c in per_group.items()},
@@ -284,6 +315,8 @@ def _count(files, out):
         "overwrites_per_table_kind_and_role": {t: dict(c) for t, c in sorted(table_role.items())},
         "reference_class_overwrites_per_field_kind": dict(sorted(ref_kinds.items())),
         "relational_class_overwrites_per_table_kind": {t: dict(c) for t, c in sorted(rel_kinds.items())},
+        "derived_class_overwrites_per_table_kind": {t: dict(c) for t, c in sorted(der_kinds.items())},
+        "overwritten_field_kinds": dict(sorted(field_kinds.items())),
         "process_deaths_per_group": {g: dict(c) for g, c in died.items()},
         "samples": samples,
     })
@@ -434,7 +467,7 @@ def run(ctx):
     # vacuity (a tool error only when nothing else is reported: on a tree broken so badly that nothing loads the
     # violations above are the message)
     missing = [r for r in ("count", "offset", "length", "version", "index", "value") if not counters["faults_per_role"].get(r)]
-    missing += [v for v in ("zero", "one", "max", "max-1", "hi7f", "hi80", "inc", "dec", "dbl", "filelen", "tablelen", "self", "parent") + REL_PREV + REL_NEXT
+    missing += [v for v in ("zero", "one", "max", "max-1", "hi7f", "hi80", "inc", "dec", "dbl", "half", "filelen", "tablelen", "self", "parent") + REL_PREV + REL_NEXT + DER
                 if not counters["faults_per_value_class"].get(v)]
     # per table kind x role: a table kind in which the walk finds count / offset / index / length / version fields but
     # none of them was overwritten in this run; the table kinds the brief names must be there at all
@@ -472,6 +505,26 @@ def run(ctx):
         for vc in REL_PREV + REL_NEXT:
             if not plan_rel.get(t, {}).get(vc):
                 missing.append("relational class %s on table kind %s (required)" % (vc, t))
+    # derived classes: every (table kind, class) the plan instantiates with an effect on the bytes was applied; the table kinds
+    # whose size / count fields the walk knows an implied value for must be there with both classes
+    got_der = counters["derived_class_overwrites_per_table_kind"]
+    plan_der = rep.get("planned_effective_derived_overwrites_per_table_kind", {})
+    for t, cs in sorted(plan_der.items()):
+        for vc, n in sorted(cs.items()):
+            if n and not got_der.get(t, {}).get(vc):
+                missing.append("derived class %s on table kind %s (planned %d)" % (vc, t, n))
+    for t in REQUIRED_DER_KINDS:
+        for vc in DER:
+            if not plan_der.get(t, {}).get(vc):
+                missing.append("derived class %s on table kind %s (required)" % (vc, t))
+    # the sub-formats the synthesized champions exist for: a field of each was overwritten
+    got_fk = counters["overwritten_field_kinds"]
+    for pat in REQUIRED_FIELD_KINDS:
+        if not any(re.search(pat, k) for k in got_fk):
+            missing.append("a field matching " + pat)
+    for name in rep.get("synthesized_inputs", {}):
+        if name not in counters.get("input_names", []):
+            missing.append("synthesized input " + name)
     missing += [k for k in ("Overwrite", "Truncate", "RemoveTable", "ShrinkLength", "SwapTables") if not counters["faults_per_kind"].get(k)]
     vac = None
     if missing:
@@ -526,7 +579,8 @@ def run(ctx):
     for k in ("fault_sequences_run", "inputs", "faults_per_role", "faults_per_value_class", "faults_per_kind", "faults_per_level",
               "sequences_per_length", "outcomes_per_group", "ok_to_err_per_group", "more_failing_calls_than_on_intact_per_group",
               "flaky_events", "overwrites_per_table_kind_and_role", "reference_class_overwrites_per_field_kind",
-              "relational_class_overwrites_per_table_kind", "relational_overwrites_noticed_per_table_kind", "process_deaths_per_group"):
+              "relational_class_overwrites_per_table_kind", "relational_overwrites_noticed_per_table_kind", "process_deaths_per_group",
+              "derived_class_overwrites_per_table_kind"):
         coverage[k] = counters[k]
     vlib.finish(ctx, LEVEL, coverage, violations, ASSUMPTIONS)
 
